@@ -76,7 +76,14 @@ def run(ctx, res):
                 if t[0] == "discr":
                     key.append(rt.val(v))
                 elif mir.contains(t, lambda x: mir.const_str(x) == "EMPTY"):
-                    key.append("name==EMPTY:%s" % v)
+                    # exact string equality only (`==`/`eq`/`ne`): a looser test (ignore case, prefix, contains) drops user symbols
+                    m = mir.strip_generics(t[1]).rsplit("::", 1)[-1] if t[0] == "call" else (t[1] if t[0] == "bin" else "?")
+                    if m in ("eq", "Eq"):
+                        key.append("name==EMPTY:%s" % v)
+                    elif m in ("ne", "Ne") and v in (0, 1):
+                        key.append("name==EMPTY:%s" % (1 - v))
+                    else:
+                        key.append("name %s EMPTY:%s" % (m, v))
                 else:
                     extra.append(fmt(t)[:80])
             rows.add((tuple(key), fmt(r[0]) if r else None))
